@@ -172,16 +172,17 @@ def native_replay(path, tier="quick", timeout=300):
 
 
 def race_confirm(pid):
-    """native confirmation of a lock-discipline finding: the generic concurrent Agent test under -race"""
+    """native confirmation of a lock-discipline finding: the generic concurrent test of the component under -race"""
     wd = os.path.join(WORK, "race-%d" % os.getpid())
     os.makedirs(wd, exist_ok=True)
+    pkg = "hmac" if pid == "C18" else "."
     tst = os.path.join(wd, "zz_vx_race_test.go")
-    shutil.copy(os.path.join(VERIF, "harness", "stun", "zz_vx_race_test.go.txt"), tst)
+    shutil.copy(os.path.join(VERIF, "harness", pkginfo(pkg)[0], "zz_vx_race_test.go.txt"), tst)
     ov = os.path.join(wd, "overlay.json")
-    json.dump({"Replace": {os.path.join(REPO, "zz_vx_race_test.go"): tst}}, open(ov, "w"))
+    json.dump({"Replace": {os.path.join(repo_dir(pkg), "zz_vx_race_test.go"): tst}}, open(ov, "w"))
     try:
-        which = "^TestVxAgentRace$" if pid in ("C13", "C14") else "^TestVxClientRace$"
-        r = subprocess.run(["go", "test", "-race", "-vet=off", "-count=1", "-overlay", ov, "-run", which, "-timeout", "300s", "."], cwd=REPO, env=ENV,
+        which = "^TestVxPoolRace$" if pid == "C18" else ("^TestVxAgentRace$" if pid in ("C13", "C14") else "^TestVxClientRace$")
+        r = subprocess.run(["go", "test", "-race", "-vet=off", "-count=1", "-overlay", ov, "-run", which, "-timeout", "300s", pkginfo(pkg)[2]], cwd=REPO, env=ENV,
                            stdout=subprocess.PIPE, stderr=subprocess.STDOUT, text=True, timeout=600)
         out = r.stdout
     except subprocess.TimeoutExpired:
@@ -193,6 +194,8 @@ def race_confirm(pid):
     shutil.rmtree(wd, ignore_errors=True)
     if "DATA RACE" in out:
         return True, "race detector: DATA RACE reported", dst
+    if "differs from crypto/hmac" in out:
+        return True, "concurrent use produced a wrong MAC", dst
     if "timeout" in out or "test timed out" in out or "all goroutines are asleep" in out:
         return True, "native run deadlocked / timed out", dst
     return False, out[-300:], dst
